@@ -7,7 +7,7 @@
 From Coq Require Import List Arith Bool NArith.
 From FFSM2 Require Import Model.TaskList Model.BitArray Model.BitStream Model.Plan Model.Ancestors Model.Machine
   Proofs.BitArrayProofs Proofs.TaskListProofs Proofs.TaskListRun Proofs.PlanProofs Proofs.MachineFrame Proofs.MachinePlan Proofs.MachineLife Proofs.GuardProofs Proofs.CycleProofs Proofs.PlanStep
-  Proofs.SerialProofs Proofs.LogProofs Proofs.MachineTop Model.Multi Generated.InitFacts Proofs.ConstructProofs Proofs.LifeMonitor Proofs.ActivationRounds Proofs.IndexSafety Proofs.FeatureProofs Model.Script Proofs.Contract Proofs.Histories Proofs.StatusBits Proofs.Worlds Model.Cxx Generated.LeafCode Proofs.LeafTactics Proofs.LeafConsts Proofs.LeafCodeTaskList Proofs.LeafCodeStream Proofs.LeafCodeWide.
+  Proofs.SerialProofs Proofs.LogProofs Proofs.MachineTop Model.Multi Generated.InitFacts Proofs.ConstructProofs Proofs.LifeMonitor Proofs.ActivationRounds Proofs.IndexSafety Proofs.FeatureProofs Model.Script Proofs.Contract Proofs.Histories Proofs.StatusBits Proofs.Worlds Model.Cxx Generated.LeafCode Proofs.LeafTactics Proofs.LeafConsts Proofs.LeafCodeTaskList Proofs.LeafCodeStream Proofs.LeafCodeWide Proofs.LeafCodePlan Proofs.LeafCodePlanRemove Proofs.LeafCodePlanAppend Proofs.LeafCodePlanInv.
 Import ListNotations.
 
 Theorem C18_tasklist_emplace :
@@ -448,4 +448,36 @@ Theorem C18_source_tasklist_remove_never_faults :
          Some (None, tl_fields (remove P cap t i), tl_arrays (remove P cap t i)).
 Proof. exact (src_TaskList_remove_FL). Qed.
 Print Assumptions C18_source_tasklist_remove_never_faults.
+
+(* index safety of the code itself (DESIGN.md 4.7): the interpreter of Model/Cxx.v returns a fault for an element
+   access outside its array, a shift by a negative amount or by at least the width, a signed result outside its type
+   and a division by zero; this theorem says the body of PlanT<>::append() (TaskListT::emplace and linkTask inlined) on
+   every plan data satisfying the plan invariant, as translated from clang's typed AST of /repo's current source on
+   every run, returns a result - no fault - for every argument the library's own assertions admit (and computes the
+   model's function) *)
+Theorem C18_source_plan_append_never_faults :
+  forall (P : Type) (cap : nat) (d : plan_data P) (order : list nat) (o dst : nat),
+         PlanInv P cap d order ->
+         o <= 255 ->
+         dst <= 255 ->
+         result
+           (run leaf_ftable (pl_consts cap) PlanT__append [BinInt.Z.of_nat o; BinInt.Z.of_nat dst]
+              (pd_fields d) (pd_arrays d)) =
+         (let '(d', b) := plan_append P cap d o dst in Some (Some (b2z b), pd_fields d', pd_arrays d')).
+Proof. exact (src_Plan_append_inv). Qed.
+Print Assumptions C18_source_plan_append_never_faults.
+
+(* index safety of the code itself (DESIGN.md 4.7): the interpreter of Model/Cxx.v returns a fault for an element
+   access outside its array, a shift by a negative amount or by at least the width, a signed result outside its type
+   and a division by zero; this theorem says the body of PlanT<>::remove() (TaskListT::remove inlined) on every plan
+   data satisfying the plan invariant, as translated from clang's typed AST of /repo's current source on every run,
+   returns a result - no fault - for every argument the library's own assertions admit (and computes the model's
+   function) *)
+Theorem C18_source_plan_remove_never_faults :
+  forall (P : Type) (cap : nat) (d : plan_data P) (l1 : list nat) (x : nat) (l2 : list nat),
+         PlanInv P cap d (l1 ++ x :: l2) ->
+         result (run leaf_ftable (pl_consts cap) PlanT__remove [BinInt.Z.of_nat x] (pd_fields d) (pd_arrays d)) =
+         Some (None, pd_fields (plan_remove P cap d x), pd_arrays (plan_remove P cap d x)).
+Proof. exact (src_Plan_remove_inv). Qed.
+Print Assumptions C18_source_plan_remove_never_faults.
 
